@@ -41,7 +41,7 @@ def gen_attrs(rng, w, rich=True):
             w.add('=')
             if kind == 'class':
                 q = rng.choice(['"', '"', "'", '', '{'])
-                body = rng.choice(['a', 'a b', 'foo  bar', ' a b ', 'a\tb\nc', '', 'x-1 y_2 z', 'a  ', ' '.join('c%d' % k for k in range(rng.randint(5, 14)))]) if q else rng.choice(['a', 'foo-bar', 'item', 'a-very-long-class-name'])
+                body = rng.choice(['a', 'a b', 'foo  bar', ' a b ', 'a\tb\nc', '', 'x-1 y_2 z', 'a  ', 'foo\u3000bar baz', 'a\x0bb c', 'p\u2028q', 'x\x85y z', 'a\xa0b', 'é ü\u2003ö', 'a\rb', ' '.join('c%d' % k for k in range(rng.randint(5, 14)))]) if q else rng.choice(['a', 'foo-bar', 'item', 'a-very-long-class-name'])
                 val = q + body + ('}' if q == '{' else q)
             elif kind == 'dq':
                 val = '"%s"' % rng.choice(['a > b', '', 'x/y', '</div>', '<b>', "it's", 'a=b c', ' ', '/>', 'é ü', '{x}', '-->'])
@@ -63,7 +63,7 @@ def gen_attrs(rng, w, rich=True):
 
 
 DECOYS = ['<!-- <b> -->', '<![CDATA[ <i></i> ]]>', '<?php echo "<u>"; ?>', 'text ', 'a < b', '\n  ', '<!---->', '<!-- a -- b > -->',
-          '<![CDATA[]]>', '<? x="?>" ?>', '1 > 0', '&lt;p&gt;', 'x </ y', '<!-- </div> -->', '< div>', '<>']
+          '<![CDATA[]]>', '<? x="?>" ?>', '<?php echo "?> <br/>"; ?>', '<? a="?><i>" ?>', "<?x '?></p><b>' ?>", '<?php $a = "<?"; ?>', '<![CDATA[ ]] > <q> ]]>', '1 > 0', '&lt;p&gt;', 'x </ y', '<!-- </div> -->', '< div>', '<>']
 SPECIAL_BODIES = ['', 'var a = "<div>"; if (a < b) {}', '</div><p>', '<!-- x -->', 'a{color:red} b>c{}', '<script>', '</scrip>', "'</p>'", '<br>']
 
 
@@ -99,7 +99,15 @@ def gen_elem(rng, depth, w, recs, parent, xml, max_depth=4, max_children=3):
                   'inner': (vs + 1, ve - 1) if val[0] in '"\'' else (vs, ve)}]
     elif kind == 'special':
         attrs = gen_attrs(rng, w) if rng.random() < 0.5 else []
-        attrs = [a for a in attrs]
+        if rng.random() < 0.3:
+            # the element's own closing tag, spelled inside its opening tag: the body starts after the tag, not before
+            w.add(' ')
+            ns, ne = w.add(rng.choice(['title', 'data-x']))
+            w.add('=')
+            q = rng.choice('"\'')
+            val = q + rng.choice(['</%s>', 'a</%s>b', '</%s', '<%s></%s>'.replace('%s', '%s', 1)]).replace('%s', name) + q
+            vs, ve = w.add(val)
+            attrs = list(attrs) + [{'name': w.text()[ns:ne], 'ns': ns, 'ne': ne, 'val': val, 'vs': vs, 've': ve, 'inner': (vs + 1, ve - 1)}]
     else:
         attrs = gen_attrs(rng, w)
     w.add(rng.choice(['', '', ' ', '\n']))
